@@ -294,7 +294,7 @@ def rtable(rng, maxn, depth, nest):
     return {"k": "TB", "tattrs": rattrs(rng), "hascap": hascap, "cattrs": rattrs(rng, p=0.4) if hascap else [],
             "caption": rinline(rng, 1) if hascap else [], "rows": rows,
             "style": {"sep": rng.choice(["line", "inline", "mixed"]), "sp": rng.random() < 0.6,
-                      "q": rng.choice(["dq", "sq", "none"]), "first": rng.random() < 0.7}}
+                      "q": rng.choice(["dq", "sq", "none"]), "first": rng.random() < 0.7, "hbar": rng.random() < 0.3}}
 
 
 def rpage(rng, thorough):
